@@ -315,3 +315,22 @@ def search(seeds, rng):
         msg = oracle(c, obs)
         if msg: return c, obs, msg
     return None
+
+# arguments on which the translated source of a kernel and the hand model differ -> ordinary single-step programs (msb0 here; C12 replays lsb0)
+KERNEL_OPS = {'k_ba_insert': 'insert', 'k_ba_overwrite': 'overwrite', 'k_ba_ror': 'ror', 'k_ba_rol': 'rol', 'k_ror_msb0': 'ror', 'k_rol_msb0': 'rol',
+              'k_ba_reverse': 'reverse', 'k_ba_ilshift': 'ilshift', 'k_ba_irshift': 'irshift', 'k_ba_imul': 'imul', 'k_insert_': 'insert', 'k_overwrite_': 'overwrite',
+              'k_delete_': 'delitem', 'k_ilshift_': 'ilshift', 'k_irshift_': 'irshift', 'k_validate_slice': 'reverse', 'k_reversebytes': 'byteswap'}
+def kernel_cases(name, a):
+    if a['lsb0']: return []
+    op = KERNEL_OPS.get(name)
+    if op is None: return []
+    x = a['args']
+    st = {'op': op}
+    if op in ('insert', 'overwrite'):
+        bs, same = x['bs']; st.update(bs=bs, pos=x['pos'], self_=bool(same))
+    elif op in ('ror', 'rol'): st.update(n=x['bits'], start=x.get('start'), end=x.get('end'))
+    elif op == 'reverse': st.update(start=x.get('start'), end=x.get('end'))
+    elif op in ('ilshift', 'irshift', 'imul'): st.update(n=x['n'])
+    elif op == 'delitem': st.update(key=[x['pos'], x['pos'] + x['bits'], None])
+    elif op == 'byteswap': st.update(fmt=0, start=x['start'], end=x['end'], repeat=False)
+    return [{'op': 'program', 'cls': cls, 'bits': a['self'], 'steps': [st]} for cls in ('BitArray', 'BitStream')]
